@@ -207,6 +207,39 @@ def run_one(h, timeout=1500):
     return dict(name=h, status=st, detail=fails if st != "verified" else "", time_s=round(time.time() - t0, 1), cmd=" ".join(cmd))
 
 
+def counterexample(h):
+    """concrete values Kani found for a failed harness (the sequence of kani::any() results, as u32 words)"""
+    env = dict(os.environ, CARGO_NET_OFFLINE="true", CARGO_TARGET_DIR=os.path.join(ROOT, "build", "kani_target"))
+    cmd = ["cargo", "kani", "-Z", "concrete-playback", "--concrete-playback=print", "--harness", h, "--output-format", "terse"]
+    try:
+        p = subprocess.run(cmd, capture_output=True, text=True, cwd=CRATE, timeout=1500, env=env)
+    except subprocess.TimeoutExpired:
+        return None
+    out = p.stdout + p.stderr
+    words = []
+    for m in re.finditer(r'vec!\[(\d+), (\d+), (\d+), (\d+)\],', out):
+        b = [int(x) for x in m.groups()]
+        words.append(b[0] | (b[1] << 8) | (b[2] << 16) | (b[3] << 24))
+    return words or None
+
+
+def replay_cex(h, words):
+    """replay a Kani counterexample of an add / sub / opp harness on the real crate (minimal build)"""
+    m = re.match(r'proofs_(\w+)::h_\w+?_(add|sub|opp)$', h)
+    if not m or not words:
+        return None
+    f, op = m.group(1), m.group(2)
+    from units.fieldc import field_params
+    n = field_params(f)["N32"]
+    a = sum(w << (32 * i) for i, w in enumerate(words[:n]))
+    b = sum(w << (32 * i) for i, w in enumerate(words[n:2 * n])) if op != "opp" else 0
+    from . import replay as vreplay
+    r = vreplay.run_probe("min", f"fiat:{f}:{op}:{a:x}:{b:x}", 1, timeout=600)
+    if r.get("status") == "cex":
+        return dict(input=r.get("input"), check=r.get("check"), got=r.get("got"), want=r.get("want"), cmd=r.get("cmd"), kani_words=words[:2 * n])
+    return dict(kani_words=words[:2 * n], note="Kani's counterexample did not reproduce through the public operators: " + str(r)[:200])
+
+
 def engine(fields=("fq", "fr", "fp"), which_quick=("add", "sub", "opp", "nonzero", "selectznz", "primitives"), jobs=8):
     def run(tier="quick", seed=0):
         try:
@@ -224,8 +257,14 @@ def engine(fields=("fq", "fr", "fp"), which_quick=("add", "sub", "opp", "nonzero
             res += list(ex.map(run_one, hs[1:]))
         obls = []
         for r in res:
-            obls.append(dict(unit="kani_fiat", name="kani:" + r["name"] + " (verbatim fiat.rs, all inputs, unwinding assertions on)",
-                             status=r["status"], detail=r["detail"], backend="kani 0.68 / cbmc 6.11", time_s=r["time_s"],
-                             file="src/fields/*/u32/fiat.rs"))
+            o = dict(unit="kani_fiat", name="kani:" + r["name"] + " (verbatim fiat.rs, all inputs, unwinding assertions on)",
+                     status=r["status"], detail=r["detail"], backend="kani 0.68 / cbmc 6.11", time_s=r["time_s"],
+                     file="src/fields/*/u32/fiat.rs")
+            if r["status"] == "failed":
+                try:
+                    o["cex"] = replay_cex(r["name"], counterexample(r["name"]))
+                except Exception as e:      # best effort
+                    o["cex"] = dict(error=str(e))
+            obls.append(o)
         return dict(obligations=obls, assumptions=["the multi-limb reference arithmetic of the Kani harness (schoolbook add/sub with u64/i64 carries) is integer arithmetic on the limb vectors"])
     return run
